@@ -5,6 +5,10 @@ ROOT = os.path.dirname(os.path.dirname(os.path.abspath(__file__)))
 props = [json.loads(l) for l in open(os.path.join(ROOT, "properties.jsonl"))]
 
 CHECKS = {
+ "C02": dict(level="proof", design="6/C02",
+   text="Lean theorems: find_punctuator model returns the longest enabled prefix (over the regenerated punctuator table); whitespace insertion never changes the token list of the specification lexer (generic theorem + code/directive instances); the fusion guard of space_text() is complete for word/number/punctuator pairs outside an explicit gap list, each gap a proved witness; the output machine emits the chunk texts once, in order (render_vis), every CR/LF is a whole terminator; character-level pipeline under monitored hypotheses. Tie: T-punct/T-chars regenerated each run, findPunct vs find_punctuator exhaustively (thorough), forceSpace vs PCF_FORCE_SPACE, hook-trace replay through Render. Monitors H-loss/H-text on the chunk dumps of every run. Oracle: input and output re-lexed by the independent specification lexer (C family) or uncrustify's own tokenizer (other languages)",
+   note="trusted: Lean kernel; specification lexer and models validated by correspondence/corpus quietness; H-loss/H-text are monitored, not proved for the unmodelled passes; fusion-guard gaps are genuine defects listed in known_findings.json",
+   technique="Lean 4 proof over hand-written models + regenerated tables + hook correspondence + monitors + independent re-lexing oracle"),
  "C07": dict(level="proof", design="6/C07",
    text="Lean theorems: while processing is off a line without marker becomes one CT_IGNORED chunk holding the whole line (model of parse_ignored, literal markers); output_text() writes a CT_IGNORED chunk raw, independent of and without touching the machine state. Tie: hook-trace replay through the Render model; monitor H-region (between the markers the chunk list handed to output_text() holds the input lines). Oracle on real bytes: region lines byte-identical and in order, blank lines, opacity under replacement of the body (generated programs with regions at every statement position, three marker kinds, unterminated regions, code-modifying option sets)",
    note="trusted: Lean kernel; models IgnoredScan/Render validated by correspondence; regex markers not modelled; that no pass between tokenizer and output touches region chunks is monitored (H-region), not proved; four known findings listed in known_findings.json",
